@@ -14,6 +14,8 @@ package main
 import (
 	"go/ast"
 	"go/token"
+	"os"
+	"path/filepath"
 	"strconv"
 	"strings"
 )
@@ -43,5 +45,34 @@ func init() {
 			name = it.Func + "_lits"
 		}
 		x.Printf("(* %s string literals: %s *)\nDefinition %s : list str :=\n  [%s].\n\n", what, strings.Join(shown, " "), name, strings.Join(parts, ";\n   "))
+	}
+}
+
+// kind "gosumhash": the version and content hash (h1:) of a dependency as pinned by go.sum.
+//
+//   {"kind": "gosumhash", "name": "github.com/opencontainers/go-digest", "coq": "go_digest_pin"}
+//
+// emits  Definition <coq> : str * str := (version, hash).
+//
+// Used by C20: Digest.Validate is modelled by hand from go-digest's source; the pinned content
+// hash identifies exactly which source that is (a lemma states the pair, so a bump breaks layer P
+// and the model has to be reviewed).
+func init() {
+	kinds["gosumhash"] = func(x *Ctx, it Item) {
+		data, err := os.ReadFile(filepath.Join(*repo, "go.sum"))
+		if err != nil {
+			fail("go.sum: %v", err)
+		}
+		var found [][2]string
+		for _, line := range strings.Split(string(data), "\n") {
+			f := strings.Fields(line)
+			if len(f) == 3 && f[0] == it.Name && !strings.HasSuffix(f[1], "/go.mod") {
+				found = append(found, [2]string{f[1], f[2]})
+			}
+		}
+		if len(found) != 1 {
+			fail("go.sum: %d entries for %s, want exactly 1", len(found), it.Name)
+		}
+		x.Printf("(* go.sum: %s %s %s *)\nDefinition %s : str * str :=\n  (%s,\n   %s).\n\n", it.Name, found[0][0], found[0][1], it.Coq, coqStr(found[0][0]), coqStr(found[0][1]))
 	}
 }
